@@ -101,7 +101,7 @@ def run(ctx):
         cases = [ctx.replay["case"]] if ctx.replay.get("case") else []
     else:
         cases = ctx.r2_generate(["Util", "GsfaAbs", "GsfaWriter", "Gen_GsfaWriter"], "Gen_GsfaWriter", GEN % 6,
-                                simulate=(200 if q else 3000), depth=160)
+                                simulate=(200 if q else 8000), depth=160)
     casep = ctx.write_ndjson("cases.ndjson", cases)
     # ---- build from the current tree: shrunk copy of the current gsfa-write.go + injected replayer
     shrunk, hits = ctx.rewrite("gsfa/gsfa-write.go", RULES, "gsfa-write.shrunk.go")
